@@ -10,3 +10,25 @@ Theorem C06_preload_file : forall fault b, well_sized b = true -> pos_sized b = 
   /\ ((exists x, In x (tl (preorder b)) /\ fault x <> None) -> exists e, st = StErr e).
 Proof. exact preload_file. Qed.
 Print Assumptions C06_preload_file.
+
+(* ---- sharded directories ---- *)
+From UV Require Import Hamt.Build Hamt.Read Hamt.ShardDecode Hamt.Refine Hamt.RefineTrace Hamt.RefineLength Base.Varint.
+From Coq Require Import Permutation.
+Local Open Scope N_scope.
+
+(* the preloading reifier of a sharded directory runs length(): it requests only shard blocks of the directory
+   (never an entry's block), every one of them when all are available, and fails if any of them is unavailable *)
+Theorem C06_sharded_preload : forall size lg, permitted size lg ->
+  forall H : bytes -> bytes, (forall k, wf_bytes (H k) = true) -> (forall k, length (H k) = 8%nat) ->
+  forall entries root sz,
+  Forall (entry_ok H) entries -> NoDup (map e_name entries) ->
+  build_sharded size HashMurmur3 entries = Ok (root, sz) ->
+  exists shards : list blk,
+    Forall (fun x => exists sh, mk_shard_of x = Ok sh) shards /\
+    forall fault,
+      incl (snd (shard_length fault root)) shards
+      /\ (forall m, fst (shard_length fault root) = Ok m -> Forall (fun t => fault t = None) shards)
+      /\ (Forall (fun t => fault t = None) shards ->
+          fst (shard_length fault root) = Ok (N.of_nat (length entries)) /\ Permutation (snd (shard_length fault root)) shards).
+Proof. exact sharded_length_under_faults. Qed.
+Print Assumptions C06_sharded_preload.
